@@ -31,8 +31,17 @@ Requirement(l, p) == "require_and_verify_peer_cert"     \* all three: tls.NewLis
 \* is a connection with this credential served?
 Served(l, p, cred) == Requirement(l, p) = "require_and_verify_peer_cert" /\ cred = "peer_keypair"
 
-\* the impostor: a plugin that announces certificate A and serves with key pair B
-HostAccepts(announced, presented) == announced = presented
+\* What a program launched by an AutoMTLS host may do instead of playing along: announce
+\* certificate A and serve with key pair B ("othercert"), or ignore the request altogether --
+\* announce no certificate and serve in plaintext ("nocert").  The host uses a plugin only if it
+\* announced a certificate and serves with exactly that one.
+ImpostorModes == {"othercert", "nocert"}
+Announced(m) == IF m = "nocert" THEN "none" ELSE "A"
+Presented(m) == IF m = "nocert" THEN "plaintext" ELSE "B"
+HostUses(announced, presented) == announced # "none" /\ announced = presented
+HostAccepts(announced, presented) == HostUses(announced, presented)
+ASSUME \A m \in ImpostorModes : ~HostUses(Announced(m), Presented(m))
+ASSUME HostUses("A", "A")
 
 VARIABLES lis, proto, cred, served
 mv == <<lis, proto, cred, served>>
